@@ -340,8 +340,10 @@ func (db *DB) setPin(batch driver.Batching, item, rootItem shed.Item) (gcSizeCha
 						return 0, err
 					}
 				}
+				// the cached-chunk counter follows the gc index: it only
+				// shrinks when an index entry actually lost a chunk
+				gcSizeChange--
 			}
-			gcSizeChange--
 		}
 	}
 
